@@ -92,9 +92,10 @@ def core_canon(obj):
 class Feed(object):
     """Input iterator that logs each pull."""
 
-    def __init__(self, items, flags, names, events):
+    def __init__(self, items, flags, names, events, waitfor=None):
         self.items, self.flags, self.names, self.events = items, flags, names, events
         self.k = 0
+        self.waitfor = waitfor      # asynchronous element: its jobs have exited before the next value is handed out
 
     def __iter__(self):
         return self
@@ -104,6 +105,11 @@ class Feed(object):
             raise StopIteration
         k = self.k
         self.k += 1
+        if self.waitfor is not None:
+            for entry in list(getattr(self.waitfor, "processes", {}).values()):
+                proc = entry[0] if isinstance(entry, tuple) else entry
+                if hasattr(proc, "wait"):
+                    proc.wait()
         self.events.append({"ev": "in", "sel": bool(self.flags[k]), "w": self.names[k]})
         return self.items[k]
     next = __next__
@@ -121,7 +127,7 @@ class _RaisingFeed(Feed):
     next = __next__
 
 
-def observe(el, items, flags, names, root, cut=0, kind="end"):
+def observe(el, items, flags, names, root, cut=0, kind="end", wait=False):
     """Run el.run over the items (in two runs of the same element if cut > 0: the first over items[:cut], ended
     normally or by an exception of the input); returns (events, error).  "out" events carry the yielded object."""
     events = []
@@ -134,7 +140,8 @@ def observe(el, items, flags, names, root, cut=0, kind="end"):
     try:
         segs = [(0, len(items), False)] if not cut else [(0, cut, kind == "abort"), (cut, len(items), False)]
         for lo, hi, raising in segs:
-            feed = (_RaisingFeed if raising else Feed)(items[lo:hi], flags[lo:hi], names[lo:hi], events)
+            feed = (_RaisingFeed if raising else Feed)(items[lo:hi], flags[lo:hi], names[lo:hi], events,
+                                                       waitfor=el if wait else None)
             try:
                 for o in el.run(feed):
                     events.append({"ev": "out", "obj": o})
@@ -719,7 +726,10 @@ def element_specs():
 class Scenario(object):
     """Reference run on A alone, then the run on the interleaving; produces the tagged event log."""
 
-    def __init__(self, spec, pattern, anames, bnames, root, bobj=None, cut=0, kind="end"):
+    def __init__(self, spec, pattern, anames, bnames, root, bobj=None, cut=0, kind="end", wait=False):
+        # wait: in the interleaved run every started job has exited before the element gets its next value (the
+        # schedule in which a finished - or failed - job is noticed while a later value is handled)
+        self.wait = wait
         self.spec, self.pattern, self.root = spec, list(pattern), root
         self.anames, self.bnames = anames, bnames
         self.bobj = list(bobj) if bobj else list(range(1, len(bnames) + 1))
@@ -777,7 +787,8 @@ class Scenario(object):
                 items.append(avals[ia]); names.append(self.anames[ia]); ia += 1
             else:
                 items.append(bvals[ib]); names.append(self.bnames[ib]); ib += 1
-        ev, err = observe(spec.make(root), items, self.pattern, names, root, cut=self.cut, kind=self.kind)
+        ev, err = observe(spec.make(root), items, self.pattern, names, root, cut=self.cut, kind=self.kind,
+                          wait=self.wait)
         if err is not None:
             cur = [e["w"] for e in ev if e["ev"] == "in"]
             self.problems.append(("raised", cur[-1] if cur else "?", repr(err)))
